@@ -330,9 +330,20 @@ func c16Combined(c *core.Ctx, b core.Batch, rep int) {
 		}
 		time.Sleep(time.Duration(150+50*cycle) * time.Millisecond)
 		// Shutdown while everything is running
-		rg.S.Shutdown()
+		sdone := make(chan struct{})
+		go func() { rg.S.Shutdown(); close(sdone) }()
+		if !waitCh(sdone, 60*time.Second) {
+			close(stop)
+			c.Inconclusive("Shutdown of the combined run did not return within 60 s")
+			return
+		}
 		close(stop)
-		wg.Wait()
+		wdone := make(chan struct{})
+		go func() { wg.Wait(); close(wdone) }()
+		if !waitCh(wdone, 60*time.Second) {
+			c.Inconclusive("client goroutines of the combined run did not finish within 60 s after Shutdown (a call into the library did not return)")
+			return
+		}
 		select {
 		case <-rg.serveRet:
 		case <-time.After(20 * time.Second):
